@@ -52,6 +52,7 @@ def check(run):
     argvidx(run, p)
     loader(run, p)
     checkmode(run, p)
+    pytable(run, p)
     flags(run, p)
     from .. import ief, triage
     ief.run_ief(run, 'C19', [p.fn('ReferenceTestCase.main'), p.fn('tdda.referencetest.referencepytest.tagged')], triage=triage.IEF)
@@ -140,6 +141,25 @@ def _truth(e, env):
     raise AnalysisError('check-mode test not interpretable: %s' % t)
 
 
+def _final_value(stmts, name, env, cur=None):
+    """The expression bound to `name` after the statements, choosing if-arms and conditional expressions by env."""
+    for st in stmts:
+        if isinstance(st, ast.If):
+            try:
+                arm = st.body if _truth(st.test, env) else st.orelse
+            except AnalysisError:
+                if any(isinstance(t, ast.Name) and t.id == name for x in ast.walk(st) if isinstance(x, ast.Assign) for t in x.targets):
+                    raise
+                continue
+            cur = _final_value(arm, name, env, cur)
+        elif isinstance(st, ast.Assign) and any(isinstance(t, ast.Name) and t.id == name for t in st.targets):
+            v = st.value
+            while isinstance(v, ast.IfExp):
+                v = v.body if _truth(v.test, env) else v.orelse
+            cur = v
+    return cur
+
+
 def checkmode(run, p):
     run.rule('C19-CHECKMODE', 'over (list-tagged mode, item is a nested suite): a test case instance is added to the suite that will run '
                               'exactly when list-tagged mode is off; in list mode its class is recorded instead; nested suites are recursed')
@@ -180,10 +200,67 @@ def checkmode(run, p):
               for s in body)
     run.ob('C19-CHECKMODE', 'recursion', rec, 'nested suites are filtered recursively', fn=f, nontrivial=False)
     rt = p.fn('tdda.referencetest.referencetestcase._run_tests')
-    src = ast.unparse(rt.node).replace(' ', '')
-    run.ob('C19-CHECKMODE', 'loader-choice', 'TaggedTestLoader(check)iftaggedorcheckelseunittest.defaultTestLoader' in src,
-           'the filtering loader is used exactly when tagged or list-tagged was requested', fn=rt)
-    run.floor('C19-CHECKMODE', 6, 6)
+    # which loader runs the tests, as a function of (tagged, check): the filtering loader, told whether to list, exactly
+    # when either was requested
+    for tg, chk in itertools.product((False, True), (False, True)):
+        env = {'tagged': tg, 'check': chk}
+        v = _final_value(rt.node.body, 'loader', env)
+        is_tl = isinstance(v, ast.Call) and norm(v.func).endswith('TaggedTestLoader')
+        if tg or chk:
+            arg = v.args[0] if is_tl and v.args else (v.keywords[0].value if is_tl and v.keywords else None)
+            try:
+                mode = None if arg is None else (arg.value if isinstance(arg, ast.Constant) else _truth(arg, env))
+            except AnalysisError:
+                mode = None
+            ok = is_tl and mode is not None and bool(mode) == chk
+            what = 'TaggedTestLoader(list mode=%s)' % mode if is_tl else norm(v) if v is not None else 'nothing'
+        else:
+            ok = v is not None and not is_tl
+            what = norm(v) if v is not None else 'nothing'
+        run.ob('C19-CHECKMODE', 'loader-choice:tagged=%s,check=%s' % (tg, chk), ok,
+               'tagged=%s, list-tagged=%s: tests are loaded by %s' % (tg, chk, what), fn=rt)
+    run.floor('C19-CHECKMODE', 9, 9)
+
+
+def pytable(run, p):
+    run.rule('C19-PYTABLE', 'pytest path, over (--tagged, --istagged, item is tagged): an item is removed from the run exactly when '
+                            'listing was asked for or it carries no tag (nothing is touched when neither option is given); its name '
+                            'is printed exactly when listing was asked for and it is tagged')
+    f = p.fn('tdda.referencetest.referencepytest.tagged')
+
+    def effects_of(stmts, env):
+        removed = printed = False
+        for st in stmts:
+            if isinstance(st, ast.If):
+                try:
+                    arms = [st.body if _truth(st.test, env) else st.orelse]
+                except AnalysisError:
+                    arms = [st.body, st.orelse]          # not a function of the three inputs: either arm may run
+                for arm in arms:
+                    r, pr = effects_of(arm, env)
+                    removed, printed = removed or r, printed or pr
+            elif isinstance(st, (ast.For, ast.While, ast.With, ast.Try)):
+                for blk in (st.body, getattr(st, 'orelse', []), getattr(st, 'finalbody', [])):
+                    r, pr = effects_of(blk, env)
+                    removed, printed = removed or r, printed or pr
+            else:
+                for c in ast.walk(st):
+                    if isinstance(c, ast.Call) and norm(c.func).endswith('items.remove'):
+                        removed = True
+                    if isinstance(c, ast.Call) and getattr(c.func, 'id', '') == 'print' and c.args:
+                        printed = True
+        return removed, printed
+    n = 0
+    for rt, st, tg in itertools.product((False, True), (False, True), (False, True)):
+        env = {'runtagged': rt, 'showtagged': st, 'tagged': tg}
+        removed, printed = effects_of(f.node.body, env)
+        want_removed = (rt or st) and (st or not tg)
+        want_printed = st and tg
+        n += 1
+        run.ob('C19-PYTABLE', '--tagged=%s,--istagged=%s,tagged=%s' % (rt, st, tg), removed == want_removed and printed == want_printed,
+               '--tagged %s, --istagged %s, item %s: removed from the run=%s (expected %s), name printed=%s (expected %s)'
+               % (rt, st, 'tagged' if tg else 'untagged', removed, want_removed, printed, want_printed), fn=f)
+    run.floor('C19-PYTABLE', n, 8)
 
 
 def flags(run, p):
